@@ -789,3 +789,114 @@ pub fn cmd_sched_conf(args: &Args) -> J {
         ("samples", J::Arr(samples)),
     ])
 }
+
+/// `panics`: a user-supplied database (or precompile) panics inside a worker. For every key the
+/// block touches, a database that panics when that key is read is run free and under controller
+/// schedules. Required: `execute()` terminates (no stall, no watchdog), every scheduler thread
+/// leaves, and either the ORIGINAL panic reaches the caller or — when no thread ever read the key —
+/// the result is the in-order result.
+pub fn cmd_panics(args: &Args) -> J {
+    use crate::world::Key;
+    let seed = args.num("seed", 1);
+    let cases = args.num("cases", 10);
+    let families: Vec<String> = args.str("families", "mixed,conf,lifecycle,precompile").split(',').map(|s| s.to_owned()).collect();
+    let max_txs = args.num("max-txs", 7) as usize;
+    let max_keys = args.num("max-keys", 6) as usize;
+    let mut divergences = Vec::new();
+    let mut points = 0u64;
+    let mut propagated = 0u64;
+    let mut unread = 0u64;
+    let mut runs = 0u64;
+    let mut distinct = std::collections::BTreeSet::new();
+    let mut samples = Vec::new();
+    // keep the injected panics out of the harness output
+    std::panic::set_hook(Box::new(|_| {}));
+    for case in 0..cases {
+        let family = families[(case as usize) % families.len()].clone();
+        let n_txs = 2 + case_rng(seed ^ 0x9a, &family, case).below(max_txs - 1);
+        let cs = CaseSpec { family: family.clone(), case, n_txs };
+        let mut block = make_block(seed, &cs);
+        block.db.log_touched = true;
+        let expected = world::oracle(&block);
+        let mut keys: Vec<Key> = block.db.touched.lock().unwrap().iter().cloned().collect();
+        block.db.log_touched = false;
+        let mut rr = case_rng(seed ^ 0x9a17, &family, case);
+        // a few keys per block, spread over the list
+        while keys.len() > max_keys {
+            let i = rr.below(keys.len());
+            keys.remove(i);
+        }
+        for key in keys {
+            points += 1;
+            let mut pb = block.clone();
+            pb.db.panic_key = Some(key.clone());
+            distinct.insert(format!("{family}/{case}/{key:?}"));
+            for round in 0..4 {
+                let workers = 2 + (round % 2);
+                let cfg = RunCfg::parallel(workers);
+                let sched = if round < 1 { None } else { Some((strategy_of(["random", "pct", "sticky"][round % 3], &mut Rng::new(rr.next())), rr.next())) };
+                let run = world::run_grevm(&pb, &cfg, sched.clone());
+                runs += 1;
+                let mut verdict = None;
+                if let Some(stall) = run.report.as_ref().and_then(|r| r.stall.clone()) {
+                    verdict = Some(("stall", format!("controller detected a stall after the injected panic: {stall}")));
+                } else {
+                    match &run.panicked {
+                        Some(msg) => {
+                            if msg.contains("injected panic at") {
+                                propagated += 1;
+                            } else {
+                                verdict = Some(("oracle", format!("the panic that reached the caller is not the original one: {msg:?}")));
+                            }
+                        }
+                        None => {
+                            // nobody read the key (e.g. a read the parallel path avoids): normal result
+                            unread += 1;
+                            if let Some(d) = world::compare_runs(&expected, &run.result) {
+                                verdict = Some(("oracle", format!("no panic reached the caller and the result is not the in-order result: {d}")));
+                            }
+                        }
+                    }
+                    if let Some(r) = &run.report {
+                        let ends = r.trace.iter().filter(|e| e.site == "end").count();
+                        let starts = r.trace.iter().filter(|e| e.site == "start").count();
+                        if ends != starts && verdict.is_none() {
+                            verdict = Some(("stall", format!("{starts} scheduler threads started but {ends} finished")));
+                        }
+                    }
+                }
+                if let Some((kind, detail)) = verdict {
+                    if divergences.len() < 6 {
+                        divergences.push(J::obj(vec![
+                            ("kind", J::s(kind)),
+                            ("detail", J::s(format!("panic injection at {key:?}: {detail}"))),
+                            ("family", J::s(family.clone())),
+                            ("case", J::n(case as usize)),
+                            ("seed", J::n(seed as usize)),
+                            ("config", J::s(cfg.describe())),
+                            ("schedule", J::s(format!("{:?}", sched.as_ref().map(|s| s.1)))),
+                            ("trace_tail", J::Arr(run.report.as_ref().map(|r| r.trace.iter().rev().take(60).rev().map(|e| J::s(format!("{} {} {:?}", e.tid, e.site, e.args))).collect()).unwrap_or_default())),
+                            ("block", block_json(&block)),
+                        ]));
+                    }
+                }
+            }
+        }
+        if samples.len() < 2 {
+            samples.push(J::obj(vec![("family", J::s(family)), ("case", J::n(case as usize)), ("block", block_json(&block))]));
+        }
+    }
+    let _ = std::panic::take_hook();
+    J::obj(vec![
+        ("check", J::s("panic-injection (database panics at every touched key; free and controlled schedules)")),
+        ("seed", J::n(seed as usize)),
+        ("cases", J::n(runs as usize)),
+        ("conforming", J::n(runs as usize - divergences.len().min(runs as usize))),
+        ("distinct_nontrivial", J::n(distinct.len())),
+        ("panic_points", J::n(points as usize)),
+        ("panic_reached_caller", J::n(propagated as usize)),
+        ("key_never_read", J::n(unread as usize)),
+        ("divergences", J::Arr(divergences)),
+        ("samples", J::Arr(samples)),
+    ])
+}
